@@ -10,7 +10,10 @@
      Packet.pack returns tobytes() of the Fragments it passed down;
  (3) assert_consistency re-parses self.pack() with the packet's own class, returns True
      exactly on the path where that did not raise, and False only under dont_raise;
- (4) R1 inverse-pair agreement for every co-installed strategy pair (shared with C01).
+ (4) R1 inverse-pair agreement for every co-installed strategy pair (shared with C01);
+ (5) Round 5: Fragments.insert keeps its index so that an in-order append after an empty chunk
+     is accepted (C11-3), and the evaluator of deferred expressions keeps nothing between
+     evaluations (C09-d).
 Equality of the re-parsed values for all consistent assignments, and whether an assignment is
 "consistent", are not decided.
 """
@@ -153,4 +156,8 @@ def check(ctx):
     check_pairs(ctx)
     # append / extend insert at the cursor (C11-6): same rule as C11, one level of delegation followed
     from .c11 import check as c11_check
-    c11_check(ctx, parts=('append',))
+    c11_check(ctx, parts=('append', 'index'))
+    # sizes, counts and conditions are deferred expressions evaluated on both sides: the evaluator
+    # is a function of the packet and its arguments only (C09 d), no stack kept between parses
+    from .c09 import check_exec
+    check_exec(ctx)
